@@ -116,8 +116,23 @@ def handleLife (toks : List String) : String :=
     | _, _ => "bad-arg"
   | _ => "bad-arg"
 
+def decErr? : String → Option IOErr
+  | "enospc" => some .enospc | "eio" => some .eio | "eacces" => some .eacces | "eperm" => some .eperm
+  | "enoent" => some .enoent | "eintr" => some .eintr | "eagain" => some .eagain
+  | "etimedout" => some .etimedout | "ioerror" => some .ioerror
+  | _ => none
+
 def handle : List String → String
   | "life" :: toks => handleLife toks
+  | "runE" :: cls :: toks =>
+    match decErr? cls, toks with
+    | some e, arch :: jour :: rest =>
+      match decOptBytes? arch, decOptBytes? jour, decSched? rest with
+      | some arch, some jour, some s =>
+        let r := writeRecordE e ⟨arch, jour⟩ s
+        encStatus r.status ++ " " ++ encTrace r.tr ++ " " ++ encOpt r.fs.archive ++ " " ++ encOpt r.fs.journal
+      | _, _, _ => "bad-arg"
+    | _, _ => "bad-arg"
   | ["run", arch, jour, getsize, jopen, jwrite, jretry, jclose, junlink, aopen, adata, aouts, srcFail,
       aclose, ropen, rtrunc, rclose, unlink] =>
     match decOptBytes? arch, decOptBytes? jour, decOut? getsize, decOut? jopen, decOut? jwrite,
